@@ -526,6 +526,15 @@ class SimS3:
 
     def complete_multipart_upload(self, **kwargs):
         def effect(rec):
+            u0 = self.uploads.get(kwargs['UploadId'])
+            if u0 is not None and u0['state'] == 'completed' and u0['key'] == kwargs['Key'] \
+                    and self.knobs.get('complete_idempotent'):
+                # S3 answers a repeated CompleteMultipartUpload of an upload it
+                # has just completed with 200 OK again
+                u0['completes'] += 1
+                rec['parts_arg'] = [dict(p) for p in
+                                    kwargs.get('MultipartUpload', {}).get('Parts', [])]
+                return {'ETag': '"mpu"', 'ResponseMetadata': {}}
             u = self._open_upload(kwargs, 'CompleteMultipartUpload')
             parts = kwargs.get('MultipartUpload', {}).get('Parts', [])
             rec['parts_arg'] = [dict(p) for p in parts]
